@@ -82,7 +82,16 @@ def task_batch(prop, seed, runs, want_sample, tier="quick"):
     out = []
     for run in runs:
         t0 = time.process_time()
+        dump = os.environ.get("GSIM_DUMP_RUN")
+        if dump and int(dump) == run:
+            from gsim.core import EventLog
+
+            EventLog.trace = []
         r = prof.run(CTX, seed, run)
+        if dump and int(dump) == run:
+            with open(os.path.join(os.environ.get("GSIM_DUMP_DIR", "/tmp"), "gsim-trace-%d-%d-%s.txt" % (run, os.getpid(), r.digest[:8])), "w") as f:
+                f.write("\n".join(EventLog.trace) + "\n" + json.dumps(r.ops, sort_keys=True) + "\n")
+            EventLog.trace = None
         d = {
             "run": run,
             "digest": r.digest,
